@@ -51,6 +51,7 @@ type Term struct {
 
 // Ctx interns terms (hash-consing). One Ctx per explored path / worker.
 type Ctx struct {
+	byID map[int]*Term
 	known    map[int]bool // boolean terms with a value fixed by the path condition
 	knownVer int
 	resMemo  map[int]*Term
@@ -70,6 +71,9 @@ func NewCtx() *Ctx {
 }
 
 func (c *Ctx) NumTerms() int { return c.next }
+
+// ByID returns the interned term with the given id (nil if none).
+func (c *Ctx) ByID(id int) *Term { return c.byID[id] }
 
 // Learn records that the boolean term t holds on this path.
 func (c *Ctx) Learn(t *Term) { c.learn(t, true) }
@@ -236,6 +240,10 @@ func (c *Ctx) intern(t *Term) *Term {
 	c.next++
 	t.ID = c.next
 	c.tab[k] = t
+	if c.byID == nil {
+		c.byID = map[int]*Term{}
+	}
+	c.byID[t.ID] = t
 	return t
 }
 
